@@ -48,6 +48,9 @@ impl FixtureDatabase {
                     "Failed to parse Python file {:?}: {} - keeping previous data",
                     file_path, e
                 );
+                // What other files get through this one (its imports) is read from the
+                // current text, so the version-keyed caches are stale from now on.
+                self.invalidate_cycle_cache();
                 return;
             }
         };
